@@ -1,4 +1,5 @@
 import Dashu.Proofs.Int.Bits
+import Dashu.Proofs.Int.BitsPrim
 /-
   C09 — Bit operations follow infinite two's-complement semantics.
 
@@ -299,6 +300,41 @@ theorem driver_specs (n : Nat) :
   by_cases hI : IsTz n (Nat.log2 (n ^^^ (n - 1)))
   · rw [if_pos hI] at h; cases h; exact hI
   · rw [if_neg hI] at h; cases h
+
+-- ================================================================== primitive operands
+
+/-- **Mixed big/primitive forms give the same value as converting both operands to `IBig` first.**
+    Model = the macro text: `UBig::from(v)` / `IBig::from(v)` (`Repr::from_unsigned`, `from_signed`,
+    C06's conversion models), the big operator, and for `& -> uN` the `try_into().unwrap()`:
+    * `UBig & uN`, `uN & UBig` return `x & v` and never panic;
+    * `IBig & uN`, `uN & IBig` return the two's-complement `x & v` (in `[0, v]`) and never panic;
+    * `| ^` with an unsigned and `& | ^` with a signed primitive, in both operand orders and the
+      assign forms, return the operator applied to the values, canonical. -/
+theorem primitive_forms (W bits : Nat) (hp : PrimOk W bits) (o : BitOp) (swap : Bool)
+    (u : TRepr) (a : SRepr) (hu : u.Canon W) (ha : SCanon W a) (v : Nat) (hv : v < 2 ^ bits)
+    (z : Int) (hz : -(2 ^ (bits - 1) : Int) ≤ z ∧ z ≤ 2 ^ (bits - 1) - 1) :
+    ubigAndPrim W bits u v swap = .ok (u.value W &&& v) ∧
+    (∃ r : Nat, ibigAndPrimU W bits a v swap = .ok r ∧ (r : Int) = specAnd (a.value W) v) ∧
+    (((ubigOpPrim W o u v swap).value W : Int) = o.spec (u.value W) v ∧ (ubigOpPrim W o u v swap).Canon W) ∧
+    ((ibigOpPrimU W o a v swap).value W = o.spec (a.value W) v ∧ SCanon W (ibigOpPrimU W o a v swap)) ∧
+    ((ibigOpPrimS W bits o a z swap).value W = o.spec (a.value W) z ∧
+      SCanon W (ibigOpPrimS W bits o a z swap)) := by
+  have hW1 : 1 ≤ W := by have := hp.hW; omega
+  exact ⟨ubigAndPrim_spec W bits hp u v swap hu hv, ibigAndPrimU_spec W bits hp a v swap ha hv,
+    ubigOpPrim_spec W hW1 o u v swap hu, ibigOpPrimU_spec W hW1 o a v swap ha,
+    ibigOpPrimS_spec W bits hW1 hp.hb o a z swap ha hz⟩
+
+/-- the side conditions hold for every primitive type on 64-bit words (and `u8…u128` on 16/32-bit words) -/
+theorem primitive_types_ok : PrimOk 64 8 ∧ PrimOk 64 16 ∧ PrimOk 64 32 ∧ PrimOk 64 64 ∧ PrimOk 64 128 ∧
+    PrimOk 32 8 ∧ PrimOk 32 16 ∧ PrimOk 32 32 ∧ PrimOk 32 64 ∧ PrimOk 32 128 ∧
+    PrimOk 16 8 ∧ PrimOk 16 16 ∧ PrimOk 16 32 ∧ PrimOk 16 64 ∧ PrimOk 16 128 := by
+  refine ⟨?_, ?_, ?_, ?_, ?_, ?_, ?_, ?_, ?_, ?_, ?_, ?_, ?_, ?_, ?_⟩ <;>
+    exact ⟨by decide, by decide, by decide, by decide, by decide⟩
+
+/-- the trailing-zero search used as the driver's specification (`specTz`, lowest-set-bit trick) never
+    fails and returns THE trailing-zero count -/
+theorem spec_tz_total (n : Nat) (hn : n ≠ 0) : ∃ k, specTz n = some k ∧ IsTz n k :=
+  specTz_total n hn
 
 -- non-vacuity: a negative 3-word heap operand and a 2-word inline operand are canonical, and the
 -- model computes (−2^130) & (−2^64 − 1) through the (Negative, Negative) arm
